@@ -342,6 +342,10 @@ def injections(gen, cid, o, full=False):
                 "custom property %s in the first of several list elements at %s (%s)" % (name, ps, ex["cid"]), True, sib)
             mut(lambda x: set_at(x, path, list(at(x, path)) + [dict(at(x, path)[-1], **{name: 1})]),
                 "custom property %s in the last of several list elements at %s (%s)" % (name, ps, ex["cid"]), True, sib)
+            n_el = r.choice([10, 11, 64, 65])
+            k_el = r.choice([1, n_el // 2, n_el - 2])
+            mut(lambda x: set_at(x, path, [dict(at(x, path)[0], **({name: 1} if i == k_el else {})) for i in range(n_el)]),
+                "custom property %s in element %d of %d list elements at %s (%s)" % (name, k_el, n_el, ps, ex["cid"]), True)
     return out
 
 
